@@ -1,4 +1,71 @@
-import FiddleModel.Generated.Tables
+/-
+C11 — auto_config: building as_buildable() equals calling the function.
+
+How the property decomposes in the model.
+  * The body of an auto_config function is a program of `Model/Codegen.lean`'s statement
+    language (assignments, variables, literals, container displays, calls of configurable
+    callables). Calling the function evaluates each call expression by *invoking* the callable;
+    `as_buildable` evaluates the same expression by *creating a Config / Partial node* for it
+    (that is what the AST rewrite into `auto_config_call_handler` does). In the model both are
+    `CProg.run`: one new heap object per evaluated call, variables denote the object they were
+    bound to. So the object graph of the direct call and the configuration DAG of
+    `as_buildable` are the same heap — read once as objects, once as Buildables — and
+    `as_buildable` performs no invocation because `run` has no such step.
+  * `fdl.build` of that DAG then creates one object per node with the same arguments and
+    the same sharing: C02 (`Mirror`, exactly-once, distinct results).
+What ties this to the code: the correspondence run reads the *source text* of generated
+functions into the model language, runs it, and compares the resulting DAG — nodes, callables,
+argument keys, tags, sharing — with the DAG the real `as_buildable` returns; the oracle then
+compares real builds with real direct calls. Calls of other auto_config functions, `exempt`,
+lambdas, `*`/`**` splats and control flow are outside the modelled subset (checked by the
+oracle only): `_partial`.
+-/
+import FiddleModel.Lemmas.CodegenL
+import FiddleModel.Lemmas.BuildMirror
+
 namespace Fiddle
-theorem C11_placeholder : True := trivial
+
+/-- Each configurable call evaluated by `as_buildable` creates exactly one new node, for that
+    callable, with the written argument names — and touches no existing node. -/
+theorem C11_call_creates_one_node (ty bk : String) (sig : Sig) (ch : List (PElem × CExpr))
+    (tags : List (Key × List Nat)) (env : CEnv) (h : Heap) (v : GVal) (h' : Heap)
+    (he : (CExpr.node .cfg ty bk sig ch tags).eval env h = some (v, h')) :
+    (∃ n, v = .ref n ∧ h.length ≤ n ∧ h'.length = n + 1) ∧ h <+: h' := by
+  refine ⟨?_, CExpr.eval_prefix _ env h v h' he⟩
+  simp only [CExpr.eval] at he
+  split at he
+  · cases he
+  · rename_i vals h1 hc
+    simp only [Option.some.injEq, Prod.mk.injEq] at he
+    obtain ⟨rfl, rfl⟩ := he
+    exact ⟨h1.length, rfl, (CExpr.evalCh_prefix ch env h vals h1 hc).length_le, by simp⟩
+
+/-- A local variable used twice denotes one node: sharing in the function body is sharing in
+    the configuration. -/
+theorem C11_variable_is_shared_node (x : Nat) (env : CEnv) (h h2 : Heap) (v : GVal)
+    (hx : env.lookup x = some v) :
+    (CExpr.var x).eval env h = some (v, h) ∧ (CExpr.var x).eval env h2 = some (v, h2) := by
+  simp [CExpr.eval, hx]
+
+/-- Building the DAG `as_buildable` returned mirrors it object for object (hence mirrors the
+    object graph of the direct call): C02's theorem, restated for a program's result. -/
+theorem C11_build_mirrors_program_partial (p : CProg) (root : GVal) (h : Heap)
+    (hp : p.run = some (root, h)) (fails : List Nat) (r : BVal) (st : BuildSt)
+    (hb : build h fails root = .ok (r, st)) :
+    Mirror h st ∧ st.log.Nodup ∧
+      (∀ i j a, memoGet st.memo i = some (.built a) → memoGet st.memo j = some (.built a) → i = j) := by
+  have hs := buildVal_step h fails _ root [] {} r st hb (BuildSt.inv_init h)
+  exact ⟨build_mirror h fails root r st hb, hs.1.inv.nodup, hs.1.inv.inj⟩
+
+/-! ## Non-vacuity: `x = f(); return g(a=x, b=[x])` -/
+
+private def prog : CProg :=
+  { assigns := [(0, .node .cfg "f" "Config" [] [] [])],
+    ret := .node .cfg "g" "Config" [] [(.attr "a", .var 0),
+      (.attr "b", .node .list "" "" [] [(.index 0, .var 0)] [])] [] }
+
+example : (prog.run).map (fun r => (r.1, r.2.map (·.children))) =
+    some (.ref 2, [[], [(.index 0, .ref 0)], [(.attr "a", .ref 0), (.attr "b", .ref 1)]]) := by
+  decide
+
 end Fiddle
